@@ -20,11 +20,15 @@ type Env struct {
 	Past    []*transaction.Transaction // every transaction built so far (for replays)
 	Fresh   []*sim.Wallet              // wallets created during the history
 	Classes map[string]int
+	X       map[string]interface{} // per-history scratch of the Extra generators
 }
 
-func NewEnv(h *sim.History) *Env { return &Env{H: h, Classes: map[string]int{}} }
+func NewEnv(h *sim.History) *Env { return &Env{H: h, Classes: map[string]int{}, X: map[string]interface{}{}} }
 
 func (e *Env) note(c string) { e.Classes[c]++ }
+
+// Note counts a generator class (for the Extra generators living in other packages).
+func (e *Env) Note(c string) { e.note(c) }
 
 // Wallets returns every wallet that can send (funded clients, owner, fresh ones).
 func (e *Env) Wallets() []*sim.Wallet {
